@@ -23,6 +23,7 @@ LEVEL_TEXT = ("Both bounds of the statement are evaluated for every key of the u
 LEVEL_NOTE = "ghost truth in unbounded Python integers; probe sketch runs the same add path as the sketch under test"
 BUDGET = {"quick": 75, "thorough": 360}
 SHARDS = {"quick": 1, "thorough": 16}
+BOUNDSCHECK = True
 
 _PROBERS = {}
 
